@@ -15,7 +15,9 @@ RULE = ('random categorical series (N <= 10 dumps, <= 6 events, values drawn fro
         'str, tuple, list (unhashable), ndarray wrapped in ComparableArrayWrapper) and random operation sequences of '
         'length <= 6 over getitem (int / slice with negative bounds and steps / mask / int list), the six comparisons, '
         'add (new / existing / no value), remove, add_unmatched, align, partition+concatenate (allow_repeats on/off, '
-        'optionally continuing with the concatenated result), remove_repeats, segments; a separate stream uses float '
+        'optionally continuing with the concatenated result), concatenation with an independent series (before/after, '
+        'repeats on/off), partition followed by remove() on the first part (siblings and parent must not change), '
+        'remove_repeats, segments; a separate stream uses float '
         'series with NaN objects (oracle: per-dump list only). A case is one (series, operation sequence); '
         'non-trivial when the series has >= 2 events and the sequence has >= 2 operations at least one of which '
         'mutates; distinct by (kind, values, events, operations)')
@@ -28,7 +30,7 @@ ASSUMPTIONS = ['series start with events strictly increasing from 0 to N (the do
                'n <= 7 with the Gallina slice_range on every run']
 
 OPN = {0: 'getitem', 1: 'cmp', 2: 'add', 3: 'remove', 4: 'add_unmatched', 5: 'align', 6: 'partconcat',
-       7: 'remove_repeats', 8: 'segments'}
+       7: 'remove_repeats', 8: 'segments', 9: 'concat_with', 10: 'part_mutate'}
 CMP = ['==', '!=', '<', '>', '<=', '>=']
 
 # ---------------------------------------------------------------------------------------------
@@ -149,6 +151,8 @@ def apply_impl(cd, op, V):
         b = np.asarray(b)
         if b.dtype != bool or b.shape != (int(cd.events[-1]),):
             raise ImplError('comparison returned dtype %s shape %s' % (b.dtype, b.shape))
+        if b[:int(cd.events[0])].any():
+            raise ImplError('comparison is True for dumps before the first event (no value there)')
         return cd, [1, [int(x) for x in b[int(cd.events[0]):]]]
     if t == 2:
         cd.add(op[1], V.py(op[2][0]) if op[2] else None)
@@ -172,6 +176,15 @@ def apply_impl(cd, op, V):
         return cd, [7, state_impl(cd, V)]
     if t == 8:
         return cd, [8, [[int(s.start), int(s.stop), V.vid(v)] for s, v in cd.segments()]]
+    if t == 10:
+        parts = cd.partition(np.array(op[1], dtype=int))
+        parts[0].remove(V.py(op[2]))
+        return cd, [10, state_impl(parts[0], V), [state_impl(p, V) for p in parts[1:]], state_impl(cd, V)]
+    if t == 9:
+        from katdal.categorical import CategoricalData
+        c2 = CategoricalData([V.py(i, wrap=True) for i in op[1]], np.array(op[2]))
+        cc = concatenate_categorical([c2, cd] if op[4] else [cd, c2], allow_repeats=bool(op[3]))
+        return cc, [9, state_impl(cc, V)]
     raise ValueError(op)
 
 
@@ -236,9 +249,16 @@ def gen_op(rng, N, kind):
         return [5, gen_segs(rng, N, rng.random() < 0.8)]
     if r < 0.9:
         return [6, gen_segs(rng, N, rng.random() < 0.85), int(rng.random() < 0.5), int(rng.random() < 0.6)]
-    if r < 0.97:
+    if r < 0.94:
         return [7]
-    return [8]
+    if r < 0.955:
+        return [8]
+    if r < 0.975:
+        return [10, gen_segs(rng, N, True), rng.randrange(nv)]
+    n2 = rng.randint(1, 5)
+    k2 = rng.randint(1, min(n2, 3))
+    ev2 = [0] + sorted(rng.sample(range(1, n2), k2 - 1)) + [n2]
+    return [9, [rng.randrange(nv) for _ in range(k2)], ev2, int(rng.random() < 0.5), int(rng.random() < 0.5)]
 
 
 def gen_case(rng, kind=None, maxn=10):
@@ -288,8 +308,10 @@ def in_domain(op, st):
         return 0 <= op[1] < N
     if t in (4, 5):
         return segs_ok(op[1])
-    if t == 6:
+    if t in (6, 10):
         return segs_ok(op[1], 2) and op[1][-1] <= N
+    if t == 9:
+        return ev[0] == 0
     return True
 
 
@@ -345,11 +367,11 @@ def run_case(ctx, case, mout, nanmode=False, note=True):
         ctx.traces_validated += 1
         if mo is None:
             # no model binary (searching): python-side invariants only
-            if err is None and dom and op[0] in (2, 3, 4, 5, 7) and not wf_state(obs[1], nan=nanmode):
+            if err is None and dom and op[0] in (2, 3, 4, 5, 7, 9) and not wf_state(obs[1], nan=nanmode):
                 ctx.disagree(sig + 'symptom=invariant', sub, obs, None, 'invariants broken after operation')
             if err is not None:
                 return
-            cur = obs[1] if op[0] in (2, 3, 4, 5, 7) else (obs[2] if op[0] == 6 and op[3] else cur)
+            cur = obs[1] if op[0] in (2, 3, 4, 5, 7, 9) else (obs[2] if op[0] == 6 and op[3] else cur)
             continue
         if err is not None:
             if mo != [-1] and dom:
@@ -368,7 +390,8 @@ def run_case(ctx, case, mout, nanmode=False, note=True):
         # ---- tie: implementation vs model
         if not same_obs(obs, mo, nanmode, V):
             ctx.disagree(sig + 'symptom=tie:%s' % first_diff(obs, mo), sub, obs, mo,
-                         '%s: implementation observable differs from the Coq model' % name, kind='tie')
+                         '%s: implementation observable differs from the Coq model' % name, kind='tie',
+                         spec=(mo[2] if len(mo) > 2 and obs[0] != 6 else (mo[3:] if obs[0] == 6 else None)))
             return
         # ---- property: implementation vs spec on the per-dump list, and invariants
         t = op[0]
@@ -376,13 +399,15 @@ def run_case(ctx, case, mout, nanmode=False, note=True):
             if spec_applies(op, cur) and not same_query(obs[1], mo[2], nanmode, V):
                 ctx.disagree(sig + 'symptom=differs_from_per_dump_list', sub, obs[1], mo[1],
                              '%s differs from the same query on the explicit per-dump list' % name, spec=mo[2])
-        elif t in (2, 3, 4, 5, 7):
+        elif t in (2, 3, 4, 5, 7, 9):
             newst = obs[1]
-            if not wf_state(newst, None if t == 5 else cur[2][-1], nanmode):
+            if not wf_state(newst, None if t == 5 else cur[2][-1] + (op[2][-1] if t == 9 else 0), nanmode):
                 ctx.disagree(sig + 'symptom=invariant', sub, newst, mo[1], 'invariants broken after %s' % name)
             if not same_list(newst[3], mo[2], nanmode, V):
                 ctx.disagree(sig + 'symptom=per_dump_list', sub, newst[3], mo[1][3],
                              'per-dump list after %s is not the documented one' % name, spec=mo[2])
+            if nanmode and newst[2] != mo[1][2]:
+                return      # identity-based NaN handling (not modelled) made the event lists diverge
             cur = newst if nanmode else mo[1]
         elif t == 6:
             pst, cst = obs[1], obs[2]
@@ -400,6 +425,8 @@ def run_case(ctx, case, mout, nanmode=False, note=True):
                     if not op[2] and len(pst) > 1 and any(a == b for a, b in zip(cst[1], cst[1][1:])) and not nanmode:
                         ctx.disagree(sig + 'symptom=repeats_left', sub, cst, mo[2], 'repeats left after concatenation')
             if op[3]:
+                if nanmode and cst[2] != mo[2][2]:
+                    return
                 cur = cst if nanmode else mo[2]
         if len(cur[1]) == 0:
             return
@@ -441,6 +468,11 @@ def same_obs(obs, mo, nanmode, V):
         return same_query(obs[1], mo[1], nanmode, V)
     if t == 8:
         return obs[1] == mo[1] if not nanmode else True
+    if t == 10:
+        if nanmode:
+            return nanclass(obs[3][3], V) == nanclass(mo[3][3], V) and \
+                [nanclass(p[3], V) for p in obs[2]] == [nanclass(p[3], V) for p in mo[2]]
+        return obs[1:] == mo[1:]
     if t == 6:
         if nanmode:
             return [nanclass(p[3], V) for p in obs[1]] == [nanclass(p[3], V) for p in mo[1]] and \
@@ -452,12 +484,14 @@ def same_obs(obs, mo, nanmode, V):
 
 
 def first_diff(obs, mo):
-    if obs[0] in (2, 3, 4, 5, 7):
+    if obs[0] in (2, 3, 4, 5, 7, 9):
         for nm, a, b in zip(('unique_values', 'indices', 'events', 'expand'), obs[1], mo[1]):
             if a != b:
                 return nm
     if obs[0] == 6:
         return 'parts' if obs[1] != mo[1] else 'concat'
+    if obs[0] == 10:
+        return 'mutated_part' if obs[1] != mo[1] else ('siblings' if obs[2] != mo[2] else 'parent')
     return 'result'
 
 
@@ -494,7 +528,7 @@ def check_slices(ctx):
 
 
 def nontrivial(case):
-    return len(case['events']) >= 3 and len(case['ops']) >= 2 and any(o[0] in (2, 3, 4, 5, 6, 7) for o in case['ops'])
+    return len(case['events']) >= 3 and len(case['ops']) >= 2 and any(o[0] in (2, 3, 4, 5, 6, 7, 9) for o in case['ops'])
 
 
 def canon(case):
@@ -541,6 +575,11 @@ def run(ctx):
         from vh import core
         sample = [gen_case(rng, maxn=6) for _ in range(120)]
         a = ctx.model([wire_case(c) for c in sample])
+        # the thorough tier starts from `make clean`: make sure every model and the dispatcher are compiled
+        with core.BuildLock():
+            tg = ' '.join(x[:-2] + '.vo' for x in core.coq_sources() if x.startswith(('Base/', 'Gen/', 'Model/')))
+            core.make(tg)
+            core.sh('timeout 600 coqc -Q . KV Extract/Dispatch.v', cwd=core.COQ, timeout=700)
         b = core.run_model_in_coq([wire_case(c) for c in sample], 'c11')
         if a != b:
             i = next(i for i in range(len(a)) if a[i] != b[i])
